@@ -101,6 +101,10 @@ def observe(asan, d, files, main="main.nano", every=None):
     o = Obs()
     o.dir, o.main, o.retried = d, main, False
     st0 = os.path.join(d, "ops0.txt")
+    try:
+        os.unlink(st0)
+    except OSError:
+        pass
     o.plain = vm(asan, d, main, {"NLVERIF_OPSTATS": st0})
     if o.plain.timeout:
         o.retried = True
@@ -214,20 +218,20 @@ FRAME_RE = re.compile(r"#\d+ 0x[0-9a-f]+ in (\S+) (\S+)")
 
 
 def asan_key(report):
+    """kind + the innermost two distinct in-repo functions of the FIRST stack of the report"""
     m = re.search(r"(?:AddressSanitizer|UndefinedBehaviorSanitizer): ([A-Za-z0-9_-]+)", report)
     kind = m.group(1) if m else "report"
-    if "runtime error:" in report and not m:
+    if not m and "runtime error:" in report:
         m2 = re.search(r"runtime error: ([a-z -]+)", report)
         kind = "ubsan:" + (m2.group(1).strip().replace(" ", "-")[:40] if m2 else "?")
+    first = report[report.find("#0"):] if "#0" in report else report
+    first = first.split("\n\n")[0]
     frames = []
-    for fm in FRAME_RE.finditer(report):
+    for fm in FRAME_RE.finditer(first):
         fn, loc = fm.group(1), fm.group(2)
-        if "/src/" in loc or loc.startswith("src/"):
-            if not frames or frames[-1] != fn:
-                frames.append(fn)
+        if ("/src/" in loc or loc.startswith("src/")) and (not frames or frames[-1] != fn):
+            frames.append(fn)
         if len(frames) >= 2:
-            break
-        if "freed by thread" in report[:fm.start()] or "previously allocated" in report[:fm.start()]:
             break
     return "asan|%s|%s" % (kind, "<".join(frames) or "?")
 
@@ -794,5 +798,673 @@ def alias_program(rng, size=1.0):
     return text, m.ops
 
 
+# ------------------------------------------------------------------------------------------------
+# hand-written aliasing templates (light parametrisation: sizes and strings from the rng)
+# ------------------------------------------------------------------------------------------------
+
+T_DECLS = """struct P { name: string, xs: array<int>, tags: array<string> }
+struct In { s: string, n: int }
+struct Out { a: In, b: In, xs: array<string> }
+union Sh { Circle { cname: string, r: int }, Box { btags: array<string> }, Holder { hp: P }, Nil { z: int } }
+let mut G_S: string = "g0"
+let mut G_A: array<int> = [1, 2, 3]
+let mut G_AS: array<string> = []
+let mut G_P: P = P { name: "gp", xs: [], tags: [] }
+"""
+
+
+def _t_two_locals(r):
+    n = r.randint(2, 6)
+    w = r.choice(WORDS)
+    return T_DECLS + """
+fn main() -> int {
+    let a: array<int> = [10, 20, 30]
+    let b: array<int> = a
+    let mut c: array<int> = b
+    let s: string = (+ "%s" (int_to_string %d))
+    let s2: string = s
+    let mut s3: string = s2
+    let p: P = P { name: s, xs: a, tags: [s, s2, "%s"] }
+    let mut q: P = p
+    let mut i: int = 0
+    while (< i %d) {
+        set c [i, i]
+        set c b
+        set s3 (+ s3 "x")
+        set s3 s
+        set q P { name: s3, xs: c, tags: q.tags }
+        set q p
+        set i (+ i 1)
+    }
+    set c [7]
+    (println (at a 1))
+    (println (at b 2))
+    (println (array_length c))
+    (println s2)
+    (println q.name)
+    (println (at q.tags 1))
+    return 0
+}
+""" % (w, n, w, n)
+
+
+def _t_containers(r):
+    n = r.randint(2, 5)
+    return T_DECLS + """
+fn main() -> int {
+    let row: array<int> = [1, 2, 3]
+    let mut grid: array<array<int>> = []
+    let mut i: int = 0
+    while (< i %d) {
+        set grid (array_push grid row)
+        set grid (array_push grid [i, (* i 2)])
+        set i (+ i 1)
+    }
+    let back: array<int> = (at grid 0)
+    let other: array<int> = (at grid 1)
+    (println (array_length back))
+    (println (at other 1))
+    let p: P = P { name: "%s", xs: row, tags: ["t"] }
+    let mut ps: array<P> = [p, p]
+    set ps (array_push ps P { name: p.name, xs: back, tags: p.tags })
+    let e: P = (at ps 2)
+    (println e.name)
+    (println (array_length e.xs))
+    (array_set grid 0 other)
+    (array_set grid 1 other)
+    set grid [row]
+    (println (array_length grid))
+    let last: P = (array_pop ps)
+    (println last.name)
+    set ps []
+    (println (at last.tags 0))
+    (println (at row 2))
+    return 0
+}
+""" % (n, r.choice(WORDS))
+
+
+def _t_struct_sharing(r):
+    w = r.choice(WORDS)
+    return T_DECLS + """
+fn mkin(s: string) -> In {
+    return In { s: s, n: (str_length s) }
+}
+fn describe(u: Sh) -> string {
+    match u {
+        Circle(c) => {
+            let nm: string = c.cname
+            return (+ nm "!")
+        },
+        Box(b) => {
+            let tg: array<string> = b.btags
+            return (at tg 0)
+        },
+        Holder(h) => {
+            let hp: P = h.hp
+            return hp.name
+        },
+        Nil(n) => { return "nil" }
+    }
+    return "?"
+}
+fn main() -> int {
+    let i1: In = (mkin "%s")
+    let o: Out = Out { a: i1, b: i1, xs: ["x", "y"] }
+    let o2: Out = o
+    (println o2.b.s)
+    let t: (int, string) = (1, (+ "t" "u"))
+    let t2: (int, string) = t
+    (println t2.1)
+    let u: Sh = Sh.Circle { cname: i1.s, r: 2 }
+    let v: Sh = Sh.Box { btags: o.xs }
+    let hp: P = P { name: o.a.s, xs: [4], tags: o2.xs }
+    let w: Sh = Sh.Holder { hp: hp }
+    let w2: Sh = w
+    (println (describe u))
+    (println (describe v))
+    (println (describe w2))
+    set G_S o.a.s
+    set G_AS o.xs
+    set G_AS (array_push G_AS G_S)
+    (println (array_length o.xs))
+    let sa: array<In> = [i1, (mkin "zz"), i1]
+    let e: In = (at sa 2)
+    (println e.s)
+    return 0
+}
+""" % w
+
+
+def _t_frames(r):
+    d = r.randint(2, 7)
+    return T_DECLS + """
+fn pass1(a: array<string>) -> array<string> { return a }
+fn pass2(a: array<string>) -> array<string> {
+    let b: array<string> = (pass1 a)
+    return b
+}
+fn down(a: array<string>, p: P, n: int) -> P {
+    if (<= n 0) {
+        return P { name: (at a 0), xs: p.xs, tags: a }
+    } else {
+        let q: P = P { name: p.name, xs: p.xs, tags: (pass2 a) }
+        return (down (array_push a (int_to_string n)) q (- n 1))
+    }
+}
+fn first(p: P) -> string {
+    let t: array<string> = p.tags
+    return (at t 0)
+}
+fn main() -> int {
+    let a: array<string> = [(+ "r" "oot")]
+    let p: P = P { name: "p", xs: [1, 2], tags: a }
+    let r: P = (down a p %d)
+    (println (array_length a))
+    (println (array_length r.tags))
+    (println (first r))
+    (println (first (down (pass2 (pass1 a)) r 1)))
+    (println r.name)
+    return 0
+}
+""" % d
+
+
+def _t_globals(r):
+    n = r.randint(2, 5)
+    return T_DECLS + """
+fn stash(a: array<int>) -> int {
+    let loc: array<int> = a
+    set G_A loc
+    return (array_length G_A)
+}
+fn fresh_into_global(i: int) -> string {
+    let s: string = (+ "made" (int_to_string i))
+    set G_S s
+    set G_AS (array_push G_AS s)
+    return s
+}
+fn take() -> P {
+    let old: P = G_P
+    set G_P P { name: G_S, xs: G_A, tags: G_AS }
+    return old
+}
+fn main() -> int {
+    let mine: array<int> = [5, 6]
+    (println (stash mine))
+    set G_A [9]
+    (println (at mine 1))
+    let mut i: int = 0
+    while (< i %d) {
+        let s: string = (fresh_into_global i)
+        let old: P = (take)
+        (println old.name)
+        set i (+ i 1)
+    }
+    let keep: array<string> = G_AS
+    set G_AS []
+    (println (array_length keep))
+    (println (at keep 0))
+    (println G_P.name)
+    (println (array_length G_P.tags))
+    return 0
+}
+""" % n
+
+
+def _t_interning(r):
+    w = r.choice([x for x in WORDS if len(x) >= 4])
+    c = r.randint(1, len(w) - 1)
+    return T_DECLS + """
+fn build(i: int) -> string {
+    if (== (%% i 3) 0) { return "%s" } else {
+        if (== (%% i 3) 1) { return (+ "%s" "%s") } else { return (str_substring "__%s__" 2 %d) }
+    }
+}
+fn main() -> int {
+    let mut all: array<string> = []
+    let mut i: int = 0
+    while (< i 9) {
+        set all (array_push all (build i))
+        set i (+ i 1)
+    }
+    let a: string = (at all 0)
+    let b: string = (at all 1)
+    let c: string = (at all 2)
+    (println (== a b))
+    (println (== b c))
+    set all []
+    (println a)
+    let n1: string = (int_to_string 42)
+    let n2: string = (+ "4" "2")
+    let n3: string = (str_concat "4" (int_to_string 2))
+    let p: P = P { name: n1, xs: [], tags: [n2, n3, "42"] }
+    (println (== p.name (at p.tags 2)))
+    let e1: string = ""
+    let e2: string = (str_substring "abc" 1 0)
+    (println (== e1 e2))
+    (println (str_length (+ e1 e2)))
+    return 0
+}
+""" % (w, w[:c], w[c:], w, len(w))
+
+
+def _t_string_arrays(r):
+    n = r.randint(4, 12)
+    return T_DECLS + """
+fn main() -> int {
+    let mut names: array<string> = []
+    let mut i: int = 0
+    while (< i %d) {
+        set names (array_push names (+ "n" (int_to_string (%% i 3))))
+        set i (+ i 1)
+    }
+    let alias: array<string> = names
+    set i 0
+    while (< i (array_length alias)) {
+        if (== (%% i 2) 0) { (array_set names i (at alias (- (- (array_length alias) 1) i))) } else {}
+        set i (+ i 1)
+    }
+    let mut last: string = ""
+    while (> (array_length names) 2) {
+        set last (array_pop names)
+    }
+    (println last)
+    (println (array_length alias))
+    (println (at alias 0))
+    for nm in alias {
+        (println nm)
+    }
+    return 0
+}
+""" % n
+
+
+def _t_fnvalues(r):
+    n = r.randint(2, 5)
+    return T_DECLS + """
+fn dbl(x: int) -> int { return (* x 2) }
+fn big(x: int) -> bool { return (> x 2) }
+fn add(a: int, b: int) -> int { return (+ a b) }
+fn ida(a: array<int>) -> array<int> { return a }
+fn rev2(a: array<int>) -> array<int> { return [(at a 1), (at a 0)] }
+fn app(f: fn(array<int>) -> array<int>, a: array<int>) -> array<int> { return (f (f a)) }
+fn pick(c: bool) -> fn(array<int>) -> array<int> {
+    if c { return ida } else { return rev2 }
+}
+fn main() -> int {
+    let a: array<int> = [1, 2, 3, 4]
+    let f: fn(array<int>) -> array<int> = (pick true)
+    let g: fn(array<int>) -> array<int> = (pick false)
+    let f2: fn(array<int>) -> array<int> = f
+    let mut i: int = 0
+    while (< i %d) {
+        let r1: array<int> = (app f2 a)
+        let r2: array<int> = (app g [i, 9])
+        (println (+ (array_length r1) (at r2 0)))
+        set i (+ i 1)
+    }
+    let m: array<int> = (map a dbl)
+    let fl: array<int> = (filter m big)
+    (println (reduce fl 0 add))
+    (println (array_length (app f a)))
+    return 0
+}
+""" % n
+
+
+def _t_hashmap(r):
+    w = r.choice(WORDS)
+    return T_DECLS + """
+fn fill(m: HashMap<string, int>, keys: array<string>) -> int {
+    let mut i: int = 0
+    while (< i (array_length keys)) {
+        (map_set m (at keys i) i)
+        set i (+ i 1)
+    }
+    return (map_length m)
+}
+fn main() -> int {
+    let m: HashMap<string, int> = (map_new)
+    let m2: HashMap<string, int> = m
+    let keys: array<string> = ["%s", (+ "k" "1"), (str_substring "_k1" 1 2), "z"]
+    (println (fill m keys))
+    (map_set m2 (at keys 0) 77)
+    (println (map_get m "%s"))
+    (println (map_has m2 (+ "" "z")))
+    let ks: array<string> = (map_keys m)
+    let vs: array<int> = (map_values m2)
+    (println (array_length ks))
+    (println (array_length vs))
+    let k0: string = (at ks 0)
+    (println (map_has m k0))
+    (println (map_length m2))
+    return 0
+}
+""" % (w, w)
+
+
+def _t_slices(r):
+    return T_DECLS + """
+fn main() -> int {
+    let base: array<string> = [(+ "a" "1"), (+ "b" "2"), (+ "c" "3"), (+ "d" "4")]
+    let s1: array<string> = (array_slice base 1 3)
+    let s2: array<string> = (array_slice s1 0 1)
+    let mut s3: array<string> = (array_slice base 0 4)
+    set s3 (array_push s3 (at s2 0))
+    (array_set s3 0 (at base 3))
+    (println (at s1 0))
+    (println (at s2 0))
+    (println (array_length s3))
+    (println (at s3 4))
+    let nested: array<array<int>> = [[1], [2, 3], [4]]
+    let ns: array<array<int>> = (array_slice nested 1 3)
+    let row: array<int> = (at ns 0)
+    (println (array_length row))
+    let t: (string, array<int>) = ((at base 0), row)
+    let t2: (string, array<int>) = t
+    let tr: array<int> = t2.1
+    (println (at tr 1))
+    (println t.0)
+    return 0
+}
+"""
+
+
+def _t_control(r):
+    n = r.randint(3, 7)
+    return T_DECLS + """
+fn find(a: array<string>, want: string) -> string {
+    let mut i: int = 0
+    while (< i (array_length a)) {
+        let cur: string = (at a i)
+        let dec: string = (+ cur "?")
+        if (== cur want) { return dec } else {}
+        set i (+ i 1)
+    }
+    return "none"
+}
+fn classify(u: Sh, a: array<string>) -> string {
+    let local: array<string> = a
+    match u {
+        Circle(c) => { return (find local c.cname) },
+        Box(b) => { return (find b.btags "x") },
+        Holder(h) => { return "holder" },
+        Nil(n) => { return (at local 0) }
+    }
+    return "?"
+}
+fn main() -> int {
+    let names: array<string> = ["x", "y", (+ "z" "z")]
+    (println (find names "zz"))
+    (println (find names "q"))
+    (println (classify Sh.Circle { cname: (at names 1), r: 1 } names))
+    (println (classify Sh.Box { btags: names } []))
+    (println (classify Sh.Nil { z: 0 } names))
+    let mut i: int = 0
+    let mut acc: string = ""
+    while true {
+        let t: string = (+ "t" (int_to_string i))
+        set i (+ i 1)
+        if (> i %d) { break } else {}
+        if (== (%% i 2) 0) { continue } else {}
+        set acc (+ acc t)
+    }
+    (println acc)
+    return 0
+}
+""" % n
+
+
+TEMPLATES = [("two_locals", _t_two_locals), ("containers", _t_containers), ("struct_sharing", _t_struct_sharing),
+             ("frames", _t_frames), ("globals", _t_globals), ("interning", _t_interning), ("string_arrays", _t_string_arrays),
+             ("fnvalues", _t_fnvalues), ("hashmap", _t_hashmap), ("slices", _t_slices), ("control", _t_control)]
+
+
+# ------------------------------------------------------------------------------------------------
+# the check
+# ------------------------------------------------------------------------------------------------
+
+# nlv.gen profile: everything that builds aggregates, plus the aliasing constructs that are switched off by default
+# because of defects of the OTHER engines (native transpiler / nanoc's evaluator); all of them run correctly on the VM
+GEN_FEATURES = {"multifile": False, "floats": False, "aggregate_string_alias": True, "string_field_direct": True,
+                "fnvalue_copy": True, "tuple_string": True, "tuple_param": True, "fnvalue_let_nested": True,
+                "self_assign": True, "match_expr_string": True, "print_indirect_call": True, "break_in_match": True,
+                "array_literal_effect": True, "multi_effect_args": True, "zero_arg_fnvalue": True, "global_call_init": True}
+
+HEAP_OPS_EXPECTED = ["DUP", "POP", "LOAD_LOCAL", "STORE_LOCAL", "LOAD_GLOBAL", "STORE_GLOBAL", "CALL", "CALL_INDIRECT", "RET",
+                     "STR_CONCAT", "STR_SUBSTR", "ARR_NEW", "ARR_PUSH", "ARR_POP", "ARR_GET", "ARR_SET", "ARR_SLICE", "ARR_REMOVE",
+                     "ARR_LITERAL", "STRUCT_GET", "STRUCT_LITERAL", "UNION_CONSTRUCT", "UNION_FIELD", "TUPLE_NEW", "TUPLE_GET",
+                     "HM_NEW", "HM_SET", "HM_GET", "HM_KEYS", "CLOSURE_NEW", "CAST_STRING"]
+
+
+def _stderr_brief(r):
+    ls = [l for l in r.errtext().splitlines() if l.strip() and not l.startswith("Warning")]
+    return "\n".join(ls[:12])[:1500]
+
+
+class Tally:
+    def __init__(self):
+        self.audits = self.objs_seen = self.registered = self.unregistered = self.instrs = 0
+        self.maxdeg = self.peak = 0
+        self.ops = {}
+        self.every = {1: 0, 64: 0}
+        self.outcomes = {}
+        self.nontrivial = set()
+        self.by_family = {}
+        self.frontend_reports = []
+        self.inconclusive = 0
+        self.samples = []
+
+    def out(self, k):
+        self.outcomes[k] = self.outcomes.get(k, 0) + 1
+
+
+def judge(ctx, keyer, tally, family, label, files, o):
+    """all oracles on one observed program; returns True when the program ran under audit"""
+    text = files.get("main.nano", "")
+    rfiles = dict(files)
+    rfiles["cmd.txt"] = ("NLVERIF_AUDIT=%d NLVERIF_AUDIT_LOG=audit.log nano_virt main.nano --run   (asan flavor; %s)\n" % (o.every, label))
+    rfiles["audited.stdout"] = o.aud.out
+    rfiles["audited.stderr"] = o.aud.err[-20000:]
+    rfiles["unaudited.stdout"] = o.plain.out
+    try:
+        rfiles["audit.log"] = open(os.path.join(o.dir, "audit.log"), "rb").read(400000)
+    except OSError:
+        pass
+    if o.plain.timeout or o.aud.timeout:
+        tally.inconclusive += 1
+        tally.out("watchdog")
+        return False
+    reported = False
+    for which, r in (("audited", o.aud), ("un-audited", o.plain)):
+        rep = r.sanitizer_report()
+        if not rep:
+            continue
+        if "/nanovm/" in rep or "src/nanovm" in rep:
+            rfiles["sanitizer.txt"] = rep
+            ctx.violation(asan_key(rep), "%s: sanitizer report inside the VM in the %s run of %s\n%s" % (family, which, label, rep[:1500]), rfiles)
+            reported = True
+        else:
+            tally.out("sanitizer-report-outside-vm")
+            if len(tally.frontend_reports) < 5:
+                tally.frontend_reports.append({"program": label, "key": asan_key(rep)})
+        break
+    for key, txt in keyer.keys(o):
+        n = sum(1 for k, f in o.records if k != "summary")
+        ctx.violation(key, "%s program %s: %s\n(%d audit record(s) in this run; audited every %d instruction(s))" % (family, label, txt, n, o.every), rfiles)
+        reported = True
+    s = o.summary
+    if s is None:
+        if o.instrs == 0:
+            tally.out("not-run:" + ("type-or-parse-error" if o.plain.rc == 1 else "rc=%s" % o.plain.status))
+        elif not reported:
+            tally.out("no-summary")
+            tally.inconclusive += 1
+        return False
+    if int(s.get("violations", 0)) > 0 and not reported:
+        ctx.violation("audit|unparsed-records", "%s: the summary counts %s violations but no record could be parsed" % (label, s.get("violations")), rfiles)
+    if not reported and (o.plain.out != o.aud.out or o.plain.status != o.aud.status):
+        what = "stdout" if o.plain.out != o.aud.out else "status"
+        ctx.violation("perturb|" + what, "%s program %s: the audited run and the un-audited run differ in %s (un-audited exit %s, audited exit %s)\n%s" % (
+            family, label, what, o.plain.status, o.aud.status, _stderr_brief(o.aud)), rfiles)
+    a = int(s.get("audits", 0))
+    tally.audits += a
+    tally.objs_seen += int(s.get("objs_seen", 0))
+    tally.registered += int(s.get("registered", 0))
+    tally.unregistered += int(s.get("unregistered", 0))
+    tally.maxdeg = max(tally.maxdeg, int(s.get("maxdeg", 0)))
+    tally.peak = max(tally.peak, int(s.get("peak_live", 0)))
+    tally.instrs += sum(o.ops.values())
+    tally.every[o.every] = tally.every.get(o.every, 0) + 1
+    for op, c in o.ops.items():
+        tally.ops[op] = tally.ops.get(op, 0) + c
+    fam = tally.by_family.setdefault(family, {"programs": 0, "audits": 0})
+    fam["programs"] += 1
+    fam["audits"] += a
+    tally.out("ran:signal-%d" % o.aud.sig if o.aud.sig else "ran:vm-runtime-error" if "runtime error" in o.aud.errtext() else "ran")
+    if a >= 1000 and int(s.get("maxdeg", 0)) >= 2:
+        tally.nontrivial.add(hashlib.sha256(text.encode()).hexdigest())
+    if len(tally.samples) < 4 and a >= 300 and family not in [x["family"] for x in tally.samples]:
+        tally.samples.append({"family": family, "program": label, "instructions": o.instrs, "audit_every": o.every, "audits": a,
+                              "max_in_degree": int(s.get("maxdeg", 0)), "registered": int(s.get("registered", 0)),
+                              "live_at_exit": int(s.get("live", 0)), "source_tail": text[-700:]})
+    return True
+
+
 def run(ctx):
-    raise NotImplementedError
+    asan = build.get("asan")
+    r = sh([asan.probe("isa_probe"), "--dump"], cpu=20, san=True)
+    isa = nvmfuzz.Isa(r.text())
+    ctx.require(len(isa.ops) > 60, "isa_probe --dump gave no opcode table")
+    opname = {op: v[0] for op, v in isa.ops.items()}
+    keyer = Keyer(asan, isa, tag_names(asan))
+    tally = Tally()
+    with Scratch("c14") as sc:
+        # ---- the hook must be alive: a control program under audit yields a summary with audits > 0 ----
+        ctl = {"main.nano": TEMPLATES[0][1](ctx.rng("control"))}
+        o = observe(asan, sc.sub("control"), ctl)
+        judge(ctx, keyer, tally, "template", "control", ctl, o)
+        if not ctx.violations:
+            ctx.require(o.summary is not None and int(o.summary.get("audits", 0)) > 50,
+                        "heap-audit hook not active (no summary record): %s" % _stderr_brief(o.aud))
+
+        # ---- audit family ----
+        items = []
+        for v in range(ctx.n(1, 10)):
+            for name, fn in TEMPLATES:
+                items.append(("template", "%s#%d" % (name, v), {"main.nano": fn(ctx.rng("template", name, v))}))
+        am_ops = {}
+        for i in range(ctx.n(84, 1700)):
+            rng = ctx.rng("alias", i)
+            text, ops = alias_program(rng, rng.choice([1.0, 2.0, 3.0]))
+            for k, c in ops.items():
+                am_ops[k] = am_ops.get(k, 0) + c
+            items.append(("alias-machine", "am%05d" % i, {"main.nano": text}))
+        n_gen = ctx.n(55, 1190)
+        batch = sweep.gen_batch(ctx, n_gen, features=GEN_FEATURES, size=1.5, label="c14gen")
+        ctx.require(len(batch) >= n_gen * 0.6, "generator produced too few programs (%d of %d)" % (len(batch), n_gen))
+        for i, prog, exp in batch:
+            items.append(("nlv.gen", "gen%05d" % i, prog.files()))
+
+        def do(item):
+            fam, label, files = item
+            return item, observe(asan, sc.sub("%s/%s" % (fam, label.replace("#", "_"))), files)
+
+        ran = 0
+        for (fam, label, files), o in pmap(do, items):
+            if judge(ctx, keyer, tally, fam, label, files, o):
+                ran += 1
+
+        # ---- churn family ----
+        pairs = [(K_ITER, 4 * K_ITER)] if ctx.quick() else [(K_ITER, 4 * K_ITER), (5 * K_ITER, 20 * K_ITER)]
+        citems = [(name, k, k4) for name in CHURN for (k, k4) in pairs]
+
+        def do_churn(it):
+            name, k, k4 = it
+            res = []
+            for n in (k, k4):
+                res.append(observe(asan, sc.sub("churn/%s/%d" % (name, n)), {"main.nano": churn_program(name, n)}, every=16))
+            return it, res
+
+        churn_table = {}
+        churn_ok = 0
+        for (name, k, k4), (o1, o4) in pmap(do_churn, citems):
+            okrun = True
+            for n, o in ((k, o1), (k4, o4)):
+                if not judge(ctx, keyer, tally, "churn", "%s@%d" % (name, n), {"main.nano": churn_program(name, n)}, o):
+                    okrun = False
+            if not okrun or o1.aud.status != 0 or o4.aud.status != 0:
+                churn_table["%s@%d" % (name, k)] = "did-not-run"
+                continue
+            churn_ok += 1
+            l1, l4 = int(o1.summary["live"]), int(o4.summary["live"])
+            p1, p4 = int(o1.summary["peak_live"]), int(o4.summary["peak_live"])
+            growth = max(l4 - l1, p4 - p1)
+            churn_table["%s@%d" % (name, k)] = {"live": [l1, l4], "peak_live": [p1, p4], "growth": growth}
+            if growth > 0.10 * (k4 - k):
+                ctx.violation("leak|" + name, "churn construct '%s': live objects at exit %d after %d iterations, %d after %d iterations (peak %d / %d): "
+                              "%.2f objects per iteration are never released" % (name, l1, k, l4, k4, p1, p4, growth / float(k4 - k)),
+                              {"main.nano": churn_program(name, k4), "main_k.nano": churn_program(name, k),
+                               "cmd.txt": "NLVERIF_AUDIT=16 NLVERIF_AUDIT_LOG=audit.log nano_virt main.nano --run ; grep summary audit.log   (compare live= with main_k.nano)\n"})
+
+        # ---- enough observed? (only meaningful when nothing was found) ----
+        ops_named = {opname.get(op, "0x%02x" % op): c for op, c in tally.ops.items()}
+        missing = [x for x in HEAP_OPS_EXPECTED if x not in ops_named]
+        if not ctx.violations:
+            ctx.require(tally.inconclusive <= max(3, len(items) // 20), "%d runs hit the watchdog or lost their summary" % tally.inconclusive)
+            ctx.require(ran >= len(items) * 0.8, "only %d of %d programs ran under audit: %s" % (ran, len(items), tally.outcomes))
+            ctx.require(churn_ok >= len(citems) * 0.9, "only %d of %d churn cells ran" % (churn_ok, len(citems)))
+            ctx.require(tally.audits >= ctx.n(300000, 5000000), "too few audits (%d)" % tally.audits)
+            ctx.require(len(tally.nontrivial) >= ctx.n(60, 1000), "too few non-trivial programs (%d)" % len(tally.nontrivial))
+            ctx.require(not missing, "heap opcodes never executed under audit: %s" % missing)
+        return ctx.finish({
+            "evaluations": len(items) + 2 * len(citems),
+            "distinct_nontrivial": len(tally.nontrivial),
+            "rule": "distinct program texts (sha256 of main.nano; audit and churn families) that ran with >= 1000 audits and reached a maximum in-degree >= 2 (some object referenced from two places at once)",
+            "programs_by_family": tally.by_family,
+            "outcomes": tally.outcomes,
+            "audits_run": tally.audits,
+            "object_visits_in_audits": tally.objs_seen,
+            "objects_registered": tally.registered,
+            "objects_unregistered": tally.unregistered,
+            "max_in_degree": tally.maxdeg,
+            "max_peak_live": tally.peak,
+            "instructions_under_audit": tally.instrs,
+            "programs_audited_every_instruction": tally.every.get(1, 0),
+            "programs_audited_every_64th": tally.every.get(64, 0),
+            "churn_cells_every_16th": tally.every.get(16, 0),
+            "opcodes_executed_under_audit": dict(sorted(ops_named.items(), key=lambda kv: -kv[1])),
+            "distinct_opcodes_under_audit": len(ops_named),
+            "alias_machine_operations": dict(sorted(am_ops.items(), key=lambda kv: -kv[1])),
+            "churn": churn_table,
+            "sanitizer_reports_outside_vm": tally.frontend_reports,
+            "samples": tally.samples,
+        }, assumptions=[
+            "hook H2 (registry in heap.c, verif_vm_audit in vm.c) computes the in-degree from: operand stack incl. locals, globals[0..global_count), frame closures; edges: array elements, struct/union/tuple fields, closure captures, hashmap keys and values; the intern table is weak",
+            "the invariant checked is ref_count >= in-degree (never equality); leaks are decided by the churn family only",
+            "audit every instruction for programs of <= %d instructions, every 64th above, every 16th in churn cells; the opcode in a key is the linear predecessor of the audited ip and is only given for every-instruction runs" % EVERY1_LIMIT,
+            "churn measure: live objects at vm_destroy (after main's frame is gone, before globals are released) and the peak of live objects seen at audits; violation when either grows by more than 10%% of the extra iterations between K=%d and 4K" % K_ITER,
+            "sanitizer reports whose stack does not touch src/nanovm are outside this property (front end) and only listed",
+        ])
+
+
+def replay(ctx, path):
+    asan = build.get("asan")
+    files = {}
+    for fn in os.listdir(path):
+        if fn.endswith(".nano"):
+            files[fn] = open(os.path.join(path, fn)).read()
+    if "main.nano" not in files:
+        print("no main.nano in %s" % path)
+        return 2
+    with Scratch("c14r") as sc:
+        o = observe(asan, sc.sub("r"), files)
+        print("exit %s, %d instructions, audited every %d" % (o.aud.status, o.instrs, o.every))
+        for k, f in o.records[:40]:
+            print("VERIF-AUDIT kind=%s %s" % (k, " ".join("%s=%s" % kv for kv in f.items())))
+        rep = o.aud.sanitizer_report()
+        if rep:
+            print(rep[:3000])
+        bad = [k for k, f in o.records if k != "summary"] or rep
+        return 1 if bad else 0
